@@ -340,8 +340,8 @@ type World struct {
 	Loc       *MemLoc
 	H         *Handler
 	Job       *jobs.Job
-	Clock     *clocks.FrozenClock
-	oldClocks []*clocks.FrozenClock // clocks of replaced job processes: time passes for them too
+	Clock     *hx.Clock
+	oldClocks []*hx.Clock // clocks of replaced job processes: time passes for them too
 	Src       *source
 	ErrC      chan error
 	mu        sync.Mutex
@@ -370,8 +370,9 @@ type World struct {
 	Delivered     map[string][]Delivered // operator id -> events in arrival order
 	nameSeq       int
 	pointHook     func(name string)
-	Exited        chan string // workers that exited on their own (a supervisor restarts them)
-	HandlerPanics []string    // RPC handlers that panicked (the worker process exits, as with util/httpu)
+	Exited        chan string     // workers that exited on their own (a supervisor restarts them)
+	PubHook       func(id uint64) // runs where the publication of a completed checkpoint begins (its own goroutine)
+	HandlerPanics []string        // RPC handlers that panicked (the worker process exits, as with util/httpu)
 	// AvoidRedeploy, if set and true, makes a worker restart as a new process when
 	// it is asked to deploy a second time (open finding, excluded by construction)
 	AvoidRedeploy func() bool
@@ -486,7 +487,7 @@ func NewWorld(cfg Config, data map[string][]Rec, savepointURI string, fs *storag
 	if fs == nil {
 		fs = storage.NewMemoryFilesystem()
 	}
-	w := &World{Cfg: cfg, FS: fs, Loc: NewMemLoc(fs, "/job"), Clock: clocks.NewFrozenClock(), ErrC: make(chan error, 256),
+	w := &World{Cfg: cfg, FS: fs, Loc: NewMemLoc(fs, "/job"), Clock: hx.NewClock(), ErrC: make(chan error, 256),
 		workers: map[string]*Worker{}, byNode: map[string]*Worker{}, dbs: map[any]bool{}, Delivered: map[string][]Delivered{}, Exited: make(chan string, 64)}
 	w.H = &Handler{w: w, Applied: map[string]int{}}
 	// the engine's own log of this case, kept for failure reports
@@ -522,12 +523,14 @@ func (w *World) RestartJob() error {
 	w.setFactories(&p, e)
 	src := *w.Src
 	src.epoch = e
+	w.mu.Lock()
 	w.Src = &src
+	w.mu.Unlock()
 	cfg := *p.JobConfig
 	cfg.Sources = []connectors.SourceConfig{w.Src}
 	p.JobConfig = &cfg
 	// its own clock (timer labels are per clock), starting at the same time
-	nc := clocks.NewFrozenClock()
+	nc := hx.NewClock()
 	nc.Advance(w.Clock.Now().Sub(nc.Now()))
 	w.oldClocks = append(w.oldClocks, w.Clock)
 	w.Clock = nc
@@ -536,9 +539,24 @@ func (w *World) RestartJob() error {
 	if err != nil {
 		return hx.Errf("restarting the job: %v", err)
 	}
+	w.mu.Lock()
 	w.Job = job
+	w.mu.Unlock()
 	w.jobAlive.Store(true)
 	return nil
+}
+
+// J is the current job process (workers talk to it from their own goroutines).
+func (w *World) J() *jobs.Job {
+	w.mu.Lock()
+	defer w.mu.Unlock()
+	return w.Job
+}
+
+func (w *World) source() *source {
+	w.mu.Lock()
+	defer w.mu.Unlock()
+	return w.Src
 }
 
 func (w *World) setFactories(p *jobs.NewParams, epoch int64) {
@@ -565,6 +583,14 @@ func (w *World) installHooks() {
 			w.mu.Unlock()
 			if h != nil {
 				h(name)
+			}
+		}
+		if name == "snapshots.publish.begin" && len(args) >= 2 {
+			w.mu.Lock()
+			h := w.PubHook
+			w.mu.Unlock()
+			if h != nil {
+				h(args[1].(uint64))
 			}
 		}
 	})
@@ -629,25 +655,25 @@ type jobClient struct {
 func (c jobClient) ok() bool { return c.from.alive.Load() && c.w.jobAlive.Load() }
 func (c jobClient) RegisterSourceRunner(ctx context.Context, n *jobpb.NodeIdentity) error {
 	if c.ok() {
-		c.w.Job.HandleRegisterSourceRunner(n)
+		c.w.J().HandleRegisterSourceRunner(n)
 	}
 	return nil
 }
 func (c jobClient) DeregisterSourceRunner(ctx context.Context, n *jobpb.NodeIdentity) error {
 	if c.ok() {
-		c.w.Job.HandleDeregisterSourceRunner(n)
+		c.w.J().HandleDeregisterSourceRunner(n)
 	}
 	return nil
 }
 func (c jobClient) RegisterOperator(ctx context.Context, n *jobpb.NodeIdentity) error {
 	if c.ok() {
-		c.w.Job.HandleRegisterOperator(n)
+		c.w.J().HandleRegisterOperator(n)
 	}
 	return nil
 }
 func (c jobClient) DeregisterOperator(ctx context.Context, n *jobpb.NodeIdentity) error {
 	if c.ok() {
-		c.w.Job.HandleDeregisterOperator(n)
+		c.w.J().HandleDeregisterOperator(n)
 	}
 	return nil
 }
@@ -659,7 +685,7 @@ func (c jobClient) OperatorCheckpointComplete(ctx context.Context, r *snapshotpb
 	c.w.mu.Lock()
 	c.w.OpAcks = append(c.w.OpAcks, r)
 	c.w.mu.Unlock()
-	return c.w.Job.HandleOperatorCheckpointComplete(ctx, r)
+	return c.w.J().HandleOperatorCheckpointComplete(ctx, r)
 }
 func (c jobClient) OnSourceRunnerCheckpointComplete(ctx context.Context, r *jobpb.SourceRunnerCheckpointCompleteRequest) error {
 	c.w.gate("sr-ack", r.SourceRunnerId, "job")
@@ -669,11 +695,11 @@ func (c jobClient) OnSourceRunnerCheckpointComplete(ctx context.Context, r *jobp
 	c.w.mu.Lock()
 	c.w.SRAcks = append(c.w.SRAcks, r)
 	c.w.mu.Unlock()
-	return c.w.Job.HandleSourceRunnerCheckpointComplete(ctx, r)
+	return c.w.J().HandleSourceRunnerCheckpointComplete(ctx, r)
 }
 func (c jobClient) NotifySplitsFinished(ctx context.Context, id string, s []string) error {
 	if c.ok() {
-		return c.w.Job.HandleNotifySplitsFinished(id, s)
+		return c.w.J().HandleNotifySplitsFinished(id, s)
 	}
 	return nil
 }
@@ -868,7 +894,7 @@ func (w *World) StartWorker() *Worker {
 			return &opClient{w: w, sender: sender, node: n}
 		},
 		SourceReaderFactory: func(*jobconfigpb.Source) connectors.SourceReader {
-			return w.Src.NewSourceReader(connectors.SourceReaderHooks{})
+			return w.source().NewSourceReader(connectors.SourceReaderHooks{})
 		}})
 	x.SR.ID = "sr-" + name
 	w.mu.Lock()
@@ -899,7 +925,12 @@ func (w *World) StartWorker() *Worker {
 	}
 	go func() { err := x.Op.Start(ctx); exit("operator", err) }()
 	go func() { err := x.SR.Start(ctx); exit("source runner", err) }()
-	x.stop = func() { x.Op.Halt(); x.SR.Halt(); cancel() }
+	x.stop = func() {
+		// (a process killed before its Start got going has nothing to halt yet)
+		func() { defer func() { recover() }(); x.Op.Halt() }()
+		func() { defer func() { recover() }(); x.SR.Halt() }()
+		cancel()
+	}
 	return x
 }
 
